@@ -107,8 +107,8 @@ def opGlobPaths (j : Json) : Json :=
   Json.mkObj [("wf", L.wf),
     ("results", Json.arr ((strs j "patterns").map fun p => resultJson (glob v fuel p.toList)).toArray)]
 
-/-- `c14_glob_judge {fs, cases: [{dir, file, returned: [paths]}]}` → `{verdicts: [{holds, inside, names_file,
-named}]}`: `Spec.C14Glob.holds` on what the implementation returned. -/
+/-- `c14_glob_judge {fs, cases: [{dir, file, returned: [paths]}]}` → `{verdicts: [{holds, relative, inside, names_file,
+named, star_files}]}`: `Spec.C14Glob.holds` on what the implementation returned. -/
 def opJudge (j : Json) : Json :=
   let L := listingOf (get j "fs")
   let vs := (arr j "cases").toList.map fun c =>
@@ -117,7 +117,8 @@ def opJudge (j : Json) : Json :=
     let r := (strs c "returned").map String.toList
     Json.mkObj [("holds", Spec.C14Glob.holds L d f r), ("relative", Spec.C14Glob.isRelative f),
                 ("inside", Spec.C14Glob.allInside d r), ("names_file", Spec.C14Glob.namesFile L d f),
-                ("named", String.ofList (Spec.C14Glob.named d f))]
+                ("named", String.ofList (Spec.C14Glob.named d f)),
+                ("star_files", strsJson (Spec.C14Glob.starFiles L d f))]
   Json.mkObj [("verdicts", Json.arr vs.toArray)]
 
 end GlobDrv
